@@ -1,4 +1,6 @@
 import PmtilesModel.Proofs.ResolverRun
+import PmtilesModel.Proofs.Clustered
+import PmtilesModel.Proofs.WriterVerifies
 import PmtilesModel.Proofs.Iterate
 import PmtilesModel.Model.Finalize
 import PmtilesModel.Model.Verify
@@ -81,5 +83,35 @@ theorem cluster_decls (h : Header.Header) (r : Res) (a b c : Nat) :
     out.addressedTilesCount = r.addressed ∧ out.tileEntriesCount = r.rev.length ∧ out.tileContentsCount = numContents r := by
   simp only [Finalize.finalizeHeader, Finalize.setZoomCenterDefaults]
   split <;> simp
+
+/-- **cluster's output is clustered**: the written entries, in tile-ID order, lay their contents out
+    back to back (repeated contents point back) and reference exactly the tile data written —
+    the precondition `ClusteredFrom 0` of makesync/sync (C20) and of verify's clustered check (C15) -/
+theorem cluster_output_clustered {fetch : Fetch} {d : Nat} {root : List Entry} (data : Bytes) (dedup : Bool)
+    (hne : ∀ e ∈ flatten fetch d root, 1 ≤ e.len ∧ e.off + e.len ≤ data.length) :
+    Pm.Sync.ClusteredFrom 0 (run id (init dedup) (toAdds data (flatten fetch d root))).rev.reverse ∧
+    Pm.Sync.extent 0 (run id (init dedup) (toAdds data (flatten fetch d root))).rev.reverse =
+      (run id (init dedup) (toAdds data (flatten fetch d root))).data.length := by
+  apply run_clustered
+  intro a ha
+  simp only [toAdds, List.mem_map] at ha
+  obtain ⟨e, he, rfl⟩ := ha
+  obtain ⟨h1, h2⟩ := hne e he
+  simp only [id, slice, List.length_take, List.length_drop]
+  omega
+
+
+/-- **verify's per-entry checks accept cluster's output** (inside the tile data; clustered order) -/
+theorem cluster_output_verifies {fetch : Fetch} {d : Nat} {root : List Entry} (data : Bytes) (dedup : Bool)
+    (hne : ∀ e ∈ flatten fetch d root, 1 ≤ e.len ∧ e.off + e.len ≤ data.length) :
+    Pm.Verify.entryLoop (run id (init dedup) (toAdds data (flatten fetch d root))).data.length true [] 0
+      (run id (init dedup) (toAdds data (flatten fetch d root))).rev.reverse = false := by
+  apply run_verifies
+  intro a ha
+  simp only [toAdds, List.mem_map] at ha
+  obtain ⟨e, he, rfl⟩ := ha
+  obtain ⟨h1, h2⟩ := hne e he
+  simp only [id, slice, List.length_take, List.length_drop]
+  omega
 
 end Pm.C13
